@@ -27,6 +27,7 @@ from ..model import walk_no_nested, norm, call_name, is_self_attr
 from ..facts import FuncFacts, facts_at, count_paths, stmt_paths
 from ..report import Ctx, AnalysisError
 from ..flow import bound_arg, local_defs
+from .. import idioms
 
 CG = "pydcop.computations_graph."
 MODS = {"hyper": CG + "constraints_hypergraph", "ordered": CG + "ordered_graph", "factor": CG + "factor_graph", "tree": CG + "pseudotree"}
@@ -215,25 +216,27 @@ def _neigh(ctx, repo):
 def _chain(ctx, repo):
     f = repo.func(MODS["ordered"], "OrderedConstraintGraph.__init__")
     ctx.touch(f)
-    d = local_defs(f, "sorted_nodes")
-    ok = len(d) == 1 and isinstance(d[0], ast.Call) and call_name(d[0]) == "sorted" and norm(d[0].args[0]) == "self.nodes"
+    cp = idioms.consecutive_pairs(f.node, f.node.body)
+    src = cp[2] if cp else None
+    ok = isinstance(src, ast.Call) and call_name(src) == "sorted" and len(src.args) == 1 and norm(src.args[0]) == "self.nodes"
     if ok:
-        key = next((k.value for k in d[0].keywords if k.arg == "key"), None)
-        rev = next((k.value for k in d[0].keywords if k.arg == "reverse"), None)
-        ok = rev is None and key is not None and ((isinstance(key, ast.Lambda) and norm(key.body) == f"{key.args.args[0].arg}.name") or norm(key) in ("attrgetter('name')", "operator.attrgetter('name')"))
+        key = next((k.value for k in src.keywords if k.arg == "key"), None)
+        rev = next((k.value for k in src.keywords if k.arg == "reverse"), None)
+        ok = rev is None and key is not None and idioms.attr_getter(key, "name")
     ctx.check(ok, "R-CHAIN", "the chain follows the lexical (plain str) order of the node names", f, f.node,
               "SyncBB and the property both define the order as the lexical order of the variable names: any other key (case folding, length, ...) reorders the chain")
     loops = [l for l in f.node.body if isinstance(l, ast.For)]
-    ok = len(loops) == 1 and norm(loops[0].iter) == "zip(sorted_nodes[:-1], sorted_nodes[1:])"
+    ok = len(loops) == 1 and cp is not None and cp[4] is loops[0]
     if ok:
-        n1, n2 = [norm(e) for e in loops[0].target.elts]
-        body = sorted(norm(s) for s in loops[0].body)
+        n1, n2 = cp[0], cp[1]
+        body = sorted(norm(s) for s in cp[3])
         ok = body == sorted([f"{n1}.links.append(OrderLink('next', {n1}.name, {n2}.name))", f"{n2}.links.append(OrderLink('previous', {n2}.name, {n1}.name))"])
     ctx.check(ok, "R-CHAIN", "consecutive nodes: next(n1->n2) stored on n1, previous(n2->n1) stored on n2", f, loops[0] if loops else f.node,
               "get_next()/get_previous() read the target of the node's own link of that type")
     ol = repo.func(MODS["ordered"], "OrderLink.__init__")
     t = norm(ol.node)
-    ctx.check(ol.params[1:4] == ["link_type", "link_source", "link_target"] and "self._source = link_source" in t and "self._target = link_target" in t and "link_type not in ['previous', 'next']" in t,
+    ctx.check(ol.params[1:4] == ["link_type", "link_source", "link_target"] and "self._source = link_source" in t and "self._target = link_target" in t and any(isinstance(c, ast.Compare) and len(c.ops) == 1 and isinstance(c.ops[0], ast.NotIn) and norm(c.left) == "link_type" and isinstance(c.comparators[0], (ast.Tuple, ast.List, ast.Set))
+                                                                                                                                                 and sorted(norm(e) for e in c.comparators[0].elts) == ["'next'", "'previous'"] for c in ast.walk(ol.node)),
               "R-CHAIN", "OrderLink(type, source, target) keeps source and target in their roles; only previous/next accepted", ol, ol.node, "")
     vc = repo.cls(MODS["ordered"], "VariableComputationNode")
     for m, lit in (("get_next", "next"), ("get_previous", "previous")):
